@@ -1,10 +1,15 @@
 """C02 — precedence and left associativity: grammar level chain, operator classes per level, left fold in term(), parentheses."""
 import re
-from collections import defaultdict
-from lib.facts import CallGraph, find, is_node, path_of, fns_in_type, render
+from lib.facts import CallGraph, find, is_node, path_of, fns_in_type, render, last_seg, walk
+from lib.mirview import View, callee
+from lib.provenance import Prov, param_names
+from lib.synflow import SEQ_VIEWS, bind_call, inits_of, mentions, pat_idents, pattern_bodies, peel
 
-TECHNIQUE = ("grammar-level chain read from the generic arguments of the nom combinator calls in the MIR (many0(pair(OP, cut(NEXT)))), operator-class "
-             "sets from MIR aggregates of the operator parsers, left-fold shape of term() and the parenthetical arms from the expanded syntax")
+TECHNIQUE = ("grammar-level chain from the MIR of the parser crate: a level is a fn holding one repetition (nom many0 / fold_many0 whose argument type names the "
+             "operator parsers and operand parsers - identified by their signature - or a hand-written parse loop), in its own body or in a helper / closure it "
+             "delegates to (lib/mirview.View); operator-class sets from aggregates and constructor values in the operator parsers' views; left-fold shape of "
+             "term() from the expanded syntax with roles assigned by provenance (components of the &Term parameter), callee and position, followed into helper "
+             "fns the loop hands (accumulator, rhs) to; the parenthetical case as match arm or if-let")
 EXPLANATION = (
     "Decides C02 as a statement about grammar shape: (R1) starting at `formula`, every level is `next (op next)*` with the SAME next level on both sides "
     "(so grouping within a level is iterative/left and a level never recurses into itself or a looser level); (R2) the operator classes per level, from "
@@ -17,27 +22,132 @@ EXPLANATION = (
 ORDER = [{"Logic"}, {"Comparison"}, {"AddSub"}, {"MulDiv", "Vec"}, {"Power"}, {"Table"}, {"Set"}]
 
 
-def level_info(b):
-    """for a grammar level body: (left operand callee, [(op parser fns, next fn)] from pair(OP, cut(NEXT)) inside many0)"""
-    first = None
+PARSE_IN = "mech_syntax::ParseString"
+EXPR = "mech_syntax::expressions::"
+
+
+def is_parser(b):
+    """grammar symbol: fn(ParseString) -> ParseResult<_>; such fns are never treated as part of another fn's own code"""
+    return b is not None and "{closure#" not in b.fn and b.nargs == 1 and len(b.locals) > 1 and b.locals[1].startswith(PARSE_IN)
+
+
+def parses(b, node):
+    """grammar symbol producing the AST node type `node` (identified by signature, not by name)"""
+    return is_parser(b) and ("mech_core::nodes::%s)" % node) in b.locals[0]
+
+
+REPEAT = re.compile(r"^nom::multi::(many0|fold_many0)$")
+INDIRECT = re.compile(r"^core::ops::function::Fn(Mut|Once)?::call(_mut|_once)?$")
+
+
+def crate_fns_in(B, type_str, depth=2):
+    """crate fns named inside a (combinator / closure) type, looking into the crate's own closures that the type contains:
+    `many0(pair(op, cut(next)))`, `many0(tuple((op, cut(next))))` and `many0(|i| { .. op(i) .. next(i) .. })` all name op and next"""
+    out, todo, seen = [], [f for f in fns_in_type(type_str) if f.startswith("mech_syntax::")], set()
+    for _ in range(depth + 1):
+        nxt = []
+        for f in todo:
+            if f in seen:
+                continue
+            seen.add(f)
+            if "{closure#" in f:
+                if f in B:
+                    nxt.extend(m for m in B[f].mentioned_fns() if m.startswith("mech_syntax::"))
+            else:
+                out.append(f)
+        todo = nxt
+    return out
+
+
+def cycle_blocks(b):
+    """blocks of a MIR body that lie on a CFG cycle (normal edges)"""
+    out = set()
+    for i in range(len(b.blocks)):
+        if b.blocks[i]["cl"]:
+            continue
+        if i in b.reachable_from(b.succ(i)):
+            out.add(i)
+    return out
+
+
+def has_parse_loop(B, b):
+    """a hand-written repetition: a CFG cycle that applies a parser (directly, through a parameter or a fn pointer)"""
+    cyc = cycle_blocks(b)
     for i, t in b.calls():
-        c = t.get("f") or t["tf"]
-        if c.startswith("mech_syntax::") and not c.startswith("mech_syntax::ParseString"):
+        if i in cyc:
+            c = callee(t)
+            if "fp" in t or INDIRECT.match(t["tf"]) or is_parser(B.get(c)):
+                return True
+    return False
+
+
+def level_info(B, b):
+    """for a grammar level body: (left operand callee, [(op parser fns, next fns)] per repetition, number of repetitions).
+    The left operand is the Factor parser the body calls directly outside the repetition (helpers with another signature - e.g. an
+    extracted `fold(first, rest)` - are not operands, wherever they sit in the block order). A repetition is a nom `many0` /
+    `fold_many0` whose parser argument's TYPE names the operator parsers (fns returning FormulaOperator) and the right operand
+    parsers (fns returning Factor) - whichever of pair / tuple / closure glues them together - or a hand-written loop that calls them."""
+    cyc = None
+    first = None
+    reps = []
+    nrep = 0
+    for i, t in b.calls():
+        if REPEAT.match(callee(t)):
+            nrep += 1
+            fns = crate_fns_in(B, " ".join(t["ga"]))
+            ops = [f for f in fns if parses(B.get(f), "FormulaOperator")]
+            nxt = [f for f in fns if parses(B.get(f), "Factor")]
+            if ops and nxt:
+                reps.append((ops, nxt))
+    if not nrep:
+        cyc = cycle_blocks(b)
+        used = set()
+        for i, t in b.calls():
+            if i in cyc:
+                used.add(callee(t))
+                for g in t.get("ga", []):
+                    used.update(fns_in_type(g))
+                for a in list(t["args"]) + ([t["fp"]] if "fp" in t else []):
+                    if isinstance(a, dict) and "fn" in a:
+                        used.update(fns_in_type(a["fn"]))
+        ops = sorted(f for f in used if parses(B.get(f), "FormulaOperator"))
+        nxt = sorted(f for f in used if parses(B.get(f), "Factor"))
+        if ops and nxt:
+            nrep = 1
+            reps.append((ops, nxt))
+    for i, t in b.calls():
+        c = callee(t)
+        if c.startswith("mech_syntax::") and parses(B.get(c), "Factor") and not (cyc and i in cyc):
             first = c
             break
-    pairs = []
-    many = [t for i, t in b.calls() if (t.get("f") or t["tf"]).startswith("nom::multi::many0") and "closure" not in (t.get("f") or t["tf"])]
-    for i, t in b.calls():
-        c = t.get("f") or t["tf"]
-        if c == "nom::sequence::pair":
-            ga = t["ga"]
-            ops = fns_in_type(ga[-2])
-            nxt = fns_in_type(ga[-1])
-            ops = [o for o in ops if o.startswith("mech_syntax::")]
-            cutn = [n for n in nxt if n.startswith("mech_syntax::")]
-            has_cut = "nom::combinator::cut" in ga[-1]
-            pairs.append((ops, cutn, has_cut))
-    return first, pairs, len(many)
+    return first, reps, nrep
+
+
+def analyse_level(B, cur):
+    """-> None when `cur` is not a repetition level, else {left, ops, right, nrep, via}.
+    Direct form: the body itself holds the repetition - operands are read from the types / calls of the repetition (level_info).
+    Delegated form: the repetition sits in a helper of the crate that `cur` calls (`level(input, NEXT, OP)`, `level(NEXT, OP)(input)`,
+    fn pointers, generics or `impl Fn`): the operand parsers are the Factor parsers that flow into the view of `cur` (its body,
+    closures and non-parser helpers). With exactly ONE Factor parser in the view both sides of the repetition necessarily use it;
+    with more than one the positions cannot be told apart here and `left` stays None (fail closed)."""
+    b = B[cur]
+    first, reps, nrep = level_info(B, b)
+    if reps:
+        ops, nxt = reps[0]
+        return {"left": first, "ops": ops, "right": sorted(set(nxt)), "nrep": nrep, "nlevel": len(reps), "via": None}
+    V = View(B, cur, stop=is_parser)
+    if len(V.bodies) < 2:
+        return None
+    nrep = sum(1 for _b, _i, t in V.calls() if REPEAT.match(callee(t)))
+    nrep += sum(1 for vb in V.bodies if has_parse_loop(B, vb))
+    if not nrep:
+        return None
+    ment = V.mentioned()
+    nexts = sorted(m for m in ment if parses(B.get(m), "Factor"))
+    ops = sorted(m for m in ment if parses(B.get(m), "FormulaOperator"))
+    if not nexts or not ops:
+        return None
+    return {"left": nexts[0] if len(nexts) == 1 else None, "ops": ops, "right": nexts, "nrep": nrep, "nlevel": 1, "via": sorted(V.helpers)}
 
 
 def run(F, rep, tier):
@@ -47,40 +157,45 @@ def run(F, rep, tier):
     rep.rule("C02-R4", "parentheses: parser wraps a full formula; interpreter evaluates the inner formula as a unit")
     cg = CallGraph(F, ["mech_syntax.lib", "mech_core.lib"])
     B = cg.bodies
-    start = "mech_syntax::expressions::formula"
+    start = EXPR + "formula"
     if not rep.check(start in B, "C02-R1", "anchor:formula", "grammar entry `formula` not found"):
         return
-    first, pairs, _ = level_info(B[start])
     chain = []
-    cur = first
     seen = set()
     classes = []
+    cur = start
+    if analyse_level(B, start) is None:
+        # `formula` is a pass-through to the loosest level: the Factor parser it calls (or hands to a wrapper)
+        cur = level_info(B, B[start])[0]
+        if cur is None:
+            c = sorted(m for m in View(B, start, stop=is_parser).mentioned() if m != start and parses(B.get(m), "Factor"))
+            cur = c[0] if len(c) == 1 else None
     while cur and cur in B and cur not in seen:
         seen.add(cur)
-        nxt, pairs, nmany = level_info(B[cur])
-        if not pairs:
+        info = analyse_level(B, cur)
+        if info is None:
             break
         chain.append(cur)
         lvl = cur.split("::")[-1]
-        rep.check(len(pairs) == 1 and nmany == 1, "C02-R1", "%s:shape" % len(chain),
-                  "level %s is not a single `many0(pair(op, next))` repetition (pairs=%d, many0=%d)" % (lvl, len(pairs), nmany), B[cur].where())
-        ops, cutn, has_cut = pairs[0]
+        nxt, ops, cutn = info["left"], info["ops"], info["right"]
+        rep.check(info["nrep"] == 1 and info["nlevel"] == 1, "C02-R1", "%s:shape" % len(chain),
+                  "level %s is not a single `many0(pair(op, next))` repetition (repetitions=%d, of which operator/operand repetitions=%d)" % (lvl, info["nrep"], info["nlevel"]), B[cur].where())
         rep.check(len(cutn) == 1 and cutn[0] == nxt, "C02-R1", "level%d:same-next-both-sides" % len(chain),
                   "level %s parses its left operand with %s but its right operands with %s: operators of this level no longer group left-to-right at one level (e.g. a ^ b ^ c parses as a ^ (b ^ c))" % (lvl, nxt, cutn),
                   B[cur].where(), sample={"level": cur, "left": nxt, "ops": ops, "right": cutn})
         rep.check(nxt != cur and nxt not in chain, "C02-R1", "level%d:descends" % len(chain), "level %s recurses into itself or a looser level (%s)" % (lvl, nxt), B[cur].where())
-        # operator class of this level: FormulaOperator variants constructed by the op parsers
+        if info["via"]:
+            rep.note("delegated_level", {"level": cur, "via": info["via"]})
+        # operator class of this level: FormulaOperator variants constructed by the op parsers (in their body, closures,
+        # non-parser helpers, or as a constructor passed to a combinator)
         cls = set()
         for o in ops:
-            ob = B.get(o)
-            if ob:
-                for i, s in ob.aggs():
-                    if s["adt"].endswith("nodes::FormulaOperator"):
-                        cls.add(s["var"])
+            if o in B:
+                cls |= View(B, o, stop=is_parser).variants("nodes::FormulaOperator")
         classes.append(cls)
         cur = nxt
     rep.floor("C02-R1", "grammar levels between formula and factor", len(chain), 7)
-    rep.check(cur == "mech_syntax::expressions::factor", "C02-R1", "chain-ends-at-factor", "the level chain ends at %s, not at `factor`" % cur)
+    rep.check(cur == EXPR + "factor", "C02-R1", "chain-ends-at-factor", "the level chain ends at %s, not at `factor`" % cur)
     # R2 order
     for i, want in enumerate(ORDER):
         got = classes[i] if i < len(classes) else None
@@ -91,117 +206,279 @@ def run(F, rep, tier):
     allc = [c for cl in classes for c in cl]
     rep.check(len(allc) == len(set(allc)), "C02-R2", "classes-disjoint", "an operator class appears on two levels: %s" % sorted(allc))
     # unary operators take a factor
-    fac = "mech_syntax::expressions::factor"
+    fac = EXPR + "factor"
     for u, var in (("negate_factor", "Negate"), ("not_factor", "Not")):
-        ub = B.get("mech_syntax::expressions::" + u)
-        if not rep.check(ub is not None, "C02-R2", "anchor:%s" % u, "%s not found" % u):
+        if not rep.check(B.get(EXPR + u) is not None, "C02-R2", "anchor:%s" % u, "%s not found" % u):
             continue
-        local = [t.get("f") or t["tf"] for i, t in ub.calls() if (t.get("f") or t["tf"]).startswith("mech_syntax::expressions::")]
-        operand = [c for c in local if c in chain or c in (fac, start)]
+        uv = View(B, EXPR + u, stop=is_parser)
+        ub = B[EXPR + u]
+        # the operand parser: every formula-level / factor parser that the unary parser (or a helper / closure of it) calls or hands on
+        operand = sorted(c for c in uv.mentioned() if c in chain or c in (fac, start))
         rep.check(operand == [fac], "C02-R2", "%s:operand-is-factor" % u, "%s parses its operand with %s instead of `factor`: the unary operator no longer binds tightest" % (u, operand), ub.where())
-        rep.check(any(s["adt"].endswith("nodes::Factor") and s["var"] == var for i, s in ub.aggs()), "C02-R2", "%s:builds-%s" % (u, var), "%s does not build Factor::%s" % (u, var), ub.where())
+        rep.check(var in uv.variants("nodes::Factor"), "C02-R2", "%s:builds-%s" % (u, var), "%s does not build Factor::%s" % (u, var), ub.where())
     fb = B.get(fac)
     if fb:
-        rep.check(any(s["adt"].endswith("nodes::Factor") and s["var"] == "Transpose" for i, s in fb.aggs()), "C02-R2", "factor:transpose-wraps-factor",
+        rep.check("Transpose" in View(B, fac, stop=is_parser).variants("nodes::Factor"), "C02-R2", "factor:transpose-wraps-factor",
                   "postfix transpose is no longer applied inside `factor`", fb.where())
         # factor's alternatives include the parenthetical, negate and not parsers
         reach1 = cg.reach([fac])
         for need in ("parenthetical_term", "negate_factor", "not_factor"):
-            rep.check(("mech_syntax::expressions::" + need) in reach1, "C02-R2", "factor:alt:%s" % need, "`factor` no longer tries %s" % need, fb.where())
+            rep.check((EXPR + need) in reach1, "C02-R2", "factor:alt:%s" % need, "`factor` no longer tries %s" % need, fb.where())
     # R4 parser side
-    pb = B.get("mech_syntax::expressions::parenthetical_term")
+    pb = B.get(EXPR + "parenthetical_term")
     if rep.check(pb is not None, "C02-R4", "anchor:parenthetical_term", "parenthetical_term not found"):
-        ment = pb.mentioned_fns()
+        pv = View(B, EXPR + "parenthetical_term", stop=is_parser)
+        ment = pv.mentioned()
         rep.check(start in ment, "C02-R4", "parenthetical:inner-is-formula", "parenthetical_term does not parse a full `formula` between the parentheses", pb.where())
-        rep.check(any(s["adt"].endswith("nodes::Factor") and s["var"] == "Parenthetical" for i, s in pb.aggs()), "C02-R4", "parenthetical:builds-node", "does not build Factor::Parenthetical", pb.where())
+        rep.check("Parenthetical" in pv.variants("nodes::Factor"), "C02-R4", "parenthetical:builds-node", "does not build Factor::Parenthetical", pb.where())
         rep.check(any("left_parenthesis" in m for m in ment) and any("right_parenthesis" in m for m in ment), "C02-R4", "parenthetical:delimiters", "parenthetical_term does not use both parenthesis leaves", pb.where())
 
     # ---- interpreter side (syn)
     items = F.syn("mech_interpreter.lib")
     term = [it for it in items if it["k"] == "fn" and it["name"] == "term" and it["mod"].endswith("expressions")]
     if rep.check(len(term) == 1, "C02-R3", "anchor:term", "interpreter term() not found"):
-        check_term(rep, term[0])
+        check_term(rep, term[0], items)
     fct = [it for it in items if it["k"] == "fn" and it["name"] == "factor" and it["mod"].endswith("expressions")]
     if rep.check(len(fct) == 1, "C02-R4", "anchor:interp-factor", "interpreter factor() not found"):
-        ok = False
-        for m in find(fct[0]["body"], "match"):
-            for arm in m[2]:
-                p = arm[0]
-                if p[0] == "pts" and p[1] == "Factor::Parenthetical":
-                    binder = p[2][0][1] if p[2] and p[2][0][0] == "pident" else None
-                    body = arm[2]
-                    calls = [c for c in find(body, "call") if path_of(c[1]) == "factor"]
-                    if len(calls) == 1 and binder and any(x[1] == binder for x in find(calls[0][2][0], "path")):
-                        # tail position: the arm body is (a block ending in) that call / Ok(call?)
-                        ok = True
-        rep.check(ok, "C02-R4", "interp:parenthetical-evaluates-inner", "Factor::Parenthetical is not evaluated by a single recursive factor() call on its inner formula")
+        rep.check(paren_evaluates_inner(fct[0]), "C02-R4", "interp:parenthetical-evaluates-inner", "Factor::Parenthetical is not evaluated by a single recursive factor() call on its inner formula")
     rep.analysed = {"levels": chain, "classes": [sorted(c) for c in classes]}
 
 
-def check_term(rep, it):
+def paren_evaluates_inner(fct):
+    """the Parenthetical case - a `match` arm or an `if let` - makes exactly one recursive factor() call whose first argument is
+    the bound inner formula (directly or through a local computed from it)"""
+    body = fct["body"]
+    for pat, scrut, arm in pattern_bodies(body):
+        for p in find(pat, "pts"):
+            if last_seg(p[1]) != "Parenthetical":
+                continue
+            binders = pat_idents(p)
+            if not binders:
+                continue
+            # locals of the arm computed from the binder count as the binder
+            derived = set(binders)
+            for _ in range(3):
+                for st in find(arm, "let"):
+                    if len(st) > 2 and st[2] is not None and any(mentions(st[2], d) for d in list(derived)):
+                        derived.update(pat_idents(st[1]))
+            calls = [c for c in find(arm, "call") if last_seg(path_of(c[1]) or "") == "factor"]
+            if len(calls) == 1 and calls[0][2] and any(mentions(calls[0][2][0], d) for d in derived):
+                return True
+    return False
+
+
+def _unwrap_pat(p):
+    while is_node(p) and p[0] in ("ptype", "pref"):
+        p = p[1] if p[0] == "ptype" else p[2]
+    return p
+
+
+def check_term(rep, it, items):
+    """left fold in term(): roles are identified by provenance (which component of the `&Term` parameter a value is computed from),
+    by callee (`factor`, `.compile`, `.out`) and by position - never by the spelling of a local."""
     body = it["body"]
-    loops = [f for f in find(body, "for")]
+    P = Prov(it)
+    tp = param_names(it, r"\bTerm\b")
+    ti = tp[0][0] if len(tp) == 1 else None
+    comp_l, comp_r = (ti, "lhs"), (ti, "rhs")
+    params = {n for _, n in param_names(it)}
+
+    def comps(e):
+        """parameter components the value of e is computed from; member accesses `param.field` count as the member, not the whole"""
+        out = set()
+        st = [e]
+        while st:
+            x = st.pop()
+            if is_node(x) and x[0] in ("path", "field"):
+                ex = P.exact(x)
+                if ex is not None:
+                    out.add(ex)
+                    continue
+                if x[0] == "path":
+                    out |= set(P.roots(x))
+                    continue
+            if isinstance(x, list):
+                st.extend(y for y in x if isinstance(y, list))
+        return out
+
+    def is_list(e, comp, depth=0):
+        """e IS the term's list `comp`, seen through references, copies and order-preserving complete views (`.iter()` ..), or a local
+        every initialiser of which is"""
+        e = peel(e, SEQ_VIEWS)
+        if is_node(e) and e[0] in ("path", "field") and P.exact(e) == comp:
+            return True
+        p = path_of(e)
+        if p and p not in params and depth < 4:
+            inits = inits_of(body, p)
+            return bool(inits) and all(is_list(i, comp, depth + 1) for i in inits)
+        return False
+
+    def determined_by(e):
+        """e and, transitively, the initialisers of the locals it names"""
+        out, frontier, seen = [e], [e], set(params)
+        for _ in range(4):
+            nxt = []
+            for x in frontier:
+                for pth in find(x, "path"):
+                    if isinstance(pth[1], str) and pth[1] not in seen:
+                        seen.add(pth[1])
+                        nxt.extend(inits_of(body, pth[1]))
+            out.extend(nxt)
+            frontier = nxt
+        return out
+
+    def touches_rhs_list(e):
+        return any(n[0] in ("path", "field") and P.exact(n) == comp_r for x in determined_by(e) for n in find_any(x))
+
+    def find_any(x):
+        return (n for n in walk(x) if n[0] in ("path", "field"))
+
+    # ---- the fold loop: a `for` over (something determined by) the term's rhs list; with several, the one that compiles operators
+    cands = [f for f in find(body, "for") if ti is not None and touches_rhs_list(f[2])]
     fold = None
-    for f in loops:
-        itx = render(f[2])
-        if re.search(r"\.rhs\b", itx):
-            fold = f
+    if cands:
+        fold = max(cands, key=lambda f: sum(1 for m in find(f[3], "mcall") if m[2] == "compile") + sum(1 for c in find(f[3], "call") if last_seg(path_of(c[1]) or "") == "factor"))
+    fold_call = None
+    if fold is None and ti is not None:
+        # the same fold written with an iterator adaptor: `list.iter().try_fold(init, |acc, (op, rhs)| ..)` / `.fold(..)`
+        for m in find(body, "mcall"):
+            if m[2] in ("fold", "try_fold") and len(m[4]) == 2 and is_node(m[4][1]) and m[4][1][0] == "closure" and touches_rhs_list(m[1]):
+                cl = m[4][1]
+                cb = cl[2][1] if is_node(cl[2]) and cl[2][0] == "block" else [["expr", cl[2], False]]
+                fold_call = m
+                fold = ["for", ["ptuple", cl[1][1:]], m[1], cb]
     if not rep.check(fold is not None, "C02-R3", "term:loop-over-rhs", "term() has no loop over the term's rhs list"):
         return
     itx = render(fold[2])
-    rep.check(not re.search(r"rev\(|rposition|rfold|last\(", itx), "C02-R3", "term:forward-iteration",
-              "term() iterates the operator list as `%s` (not forwards)" % itx, sample={"iterator": itx})
-    # loop pattern (op, rhs)
-    pat = fold[1]
-    pvars = [p[1] for p in find(pat, "pident")]
-    # accumulator: a `let mut X = factor(&trm.lhs ..)` before the loop, assigned at the end of the loop body
+    lbody = fold[3]
+    forward = is_list(fold[2], comp_r)
+    if not forward and is_node(fold[2]) and fold[2][0] == "range":
+        # index loop `for i in 0..list.len()`: forwards iff every element access into the list uses exactly the loop variable
+        lo, hi = fold[2][1], fold[2][2]
+        pv = _unwrap_pat(fold[1])
+        hi_ok = is_node(hi) and hi[0] == "mcall" and hi[2] == "len" and is_list(hi[1], comp_r) and not fold[2][3]
+        if is_node(lo) and lo[0] == "int" and lo[1] == "0" and hi_ok and is_node(pv) and pv[0] == "pident":
+            idx = [ix for ix in find(lbody, "index") if is_list(ix[1], comp_r)]
+            forward = bool(idx) and all(path_of(ix[2]) == pv[1] for ix in idx)
+    rep.check(forward, "C02-R3", "term:forward-iteration",
+              "term() iterates the operator list as `%s` (not the rhs list itself, front to back)" % itx, sample={"iterator": itx})
+    # ---- accumulator: a mutable local declared outside the loop and computed from the term's lhs
+    inside = {id(n) for n in walk(fold)}
     acc = None
-    for st in body:
-        if st[0] == "let" and st[2] is not None and is_node(st[1]) and st[1][0] == "pident" and st[1][3]:
-            if re.search(r"\.lhs\b", render(st[2])):
-                acc = st[1][1]
+    if fold_call is not None:
+        # accumulator = first closure parameter, seeded with a value computed from the term's lhs
+        a0 = _unwrap_pat(fold_call[4][1][1][0]) if fold_call[4][1][1] else None
+        if is_node(a0) and a0[0] == "pident" and comp_l in comps(fold_call[4][0]):
+            acc = a0[1]
+    for st in ([] if fold_call is not None else find(body, "let")):
+        if id(st) in inside or len(st) < 3 or st[2] is None:
+            continue
+        pat = _unwrap_pat(st[1])
+        if is_node(pat) and pat[0] == "pident" and pat[3] and comp_l in comps(st[2]):
+            acc = pat[1]
     if not rep.check(acc is not None, "C02-R3", "term:accumulator", "no mutable accumulator initialised from the term's lhs"):
         return
-    lbody = fold[3]
-    # rhs value evaluated inside loop
-    rhsv = None
-    for st in lbody:
-        if st[0] == "let" and st[2] is not None and is_node(st[1]) and st[1][0] == "pident":
-            if any(x[1] in pvars for x in find(st[2], "path")) and path_of(st[2][1] if st[2][0] in ("try",) and is_node(st[2][1]) and st[2][1][0] == "call" and False else None) is None:
-                if any(c for c in find(st[2], "call") if path_of(c[1]) == "factor"):
-                    rhsv = st[1][1]
-    rep.check(rhsv is not None, "C02-R3", "term:rhs-evaluated", "the right operand is not evaluated with factor() inside the loop")
-    # every compile() call in the loop gets [acc, rhs] in that order
-    n = 0
-    bad = []
-    for mc in find(lbody, "mcall"):
-        if mc[2] != "compile" or not (is_node(mc[1]) and mc[1][0] == "struct"):
-            continue
-        arrs = [a for a in find(mc[4], "array")]
-        if not arrs:
-            continue
-        elems = [path_of(x) or path_of(x[1]) if is_node(x) else None for x in arrs[-1][1]]
-        # allow lhs.clone()
-        el = []
-        for x in arrs[-1][1]:
-            while is_node(x) and x[0] in ("mcall", "ref") and (x[0] == "ref" or x[2] == "clone"):
-                x = x[2] if x[0] == "ref" else x[1]
-            el.append(path_of(x))
-        n += 1
-        if el != [acc, rhsv]:
-            bad.append((mc[1][1], el))
+
+    # ---- right operand: evaluated inside the loop by factor() from the loop element
+    # names that stand for (parts of) the current element: the loop pattern and loop-body locals computed from it
+    elem = set(pat_idents(fold[1]))
+    if fold_call is not None and acc in elem:
+        elem.discard(acc)
+    for _ in range(3):
+        for st in find(lbody, "let"):
+            if len(st) > 2 and st[2] is not None and any(mentions(st[2], e_) for e_ in list(elem)):
+                elem.update(pat_idents(st[1]))
+
+    def is_factor_of_elem(e):
+        return any(last_seg(path_of(c[1]) or "") == "factor" and comp_r in comps(c) and any(mentions(c[2], e_) for e_ in elem) for c in find(e, "call"))
+    rhs_names = set()
+    for st in find(lbody, "let"):
+        if len(st) > 2 and st[2] is not None and is_factor_of_elem(st[2]):
+            pat = _unwrap_pat(st[1])
+            if is_node(pat) and pat[0] == "pident":
+                rhs_names.add(pat[1])
+    inline_rhs = any(is_factor_of_elem(c) for c in find(lbody, "call") if last_seg(path_of(c[1]) or "") == "factor")
+    rep.check(bool(rhs_names) or inline_rhs, "C02-R3", "term:rhs-evaluated", "the right operand is not evaluated with factor() inside the loop")
+
+    def role_top(x):
+        y = peel(x)
+        if path_of(y) == acc:
+            return "acc"
+        if path_of(y) in rhs_names:
+            return "rhs"
+        if is_node(y) and y[0] == "call" and last_seg(path_of(y[1]) or "") == "factor" and is_factor_of_elem(y):
+            return "rhs"
+        return None
+
+    # ---- every operator compiler call of the loop - in the loop body or in a helper fn the loop hands (accumulator, rhs) to -
+    # gets [accumulator, rhs] in that order
+    st_ = {"n": 0, "bad": [], "site_ids": set(), "helper_calls": set(), "out_helpers": set()}
+
+    def scan(stmts, role, depth):
+        n0 = st_["n"]
+        for mc in find(stmts, "mcall"):
+            if mc[2] != "compile" or not (is_node(mc[1]) and mc[1][0] == "struct"):
+                continue
+            arrs = [a for a in find(mc[4], "array")]
+            if not arrs:
+                continue
+            el = [role(x) for x in arrs[-1][1]]
+            st_["n"] += 1
+            st_["site_ids"].add(id(mc))
+            if el != ["acc", "rhs"]:
+                st_["bad"].append((mc[1][1], [render(x) for x in arrs[-1][1]]))
+        if depth > 0:
+            for c in find(stmts, "call"):
+                if last_seg(path_of(c[1]) or "") in ("factor", it["name"]):
+                    continue
+                h, pn = bind_call(items, c, it["mod"])
+                if h is None:
+                    continue
+                roles = [role(a) for a in c[2]]
+                if roles.count("acc") != 1 or roles.count("rhs") != 1:
+                    continue
+                pa, pr = pn[roles.index("acc")], pn[roles.index("rhs")]
+                if pa is None or pr is None:
+                    continue
+                before = st_["n"]
+                scan(h["body"], lambda x, pa=pa, pr=pr: "acc" if path_of(peel(x)) == pa else "rhs" if path_of(peel(x)) == pr else None, depth - 1)
+                if st_["n"] > before:
+                    st_["helper_calls"].add(id(c))
+                    if any(m[2] == "out" and not m[4] for m in find(h["body"], "mcall")):
+                        st_["out_helpers"].add(id(c))
+        return st_["n"] - n0
+    scan(lbody, role_top, 2)
+    n, bad = st_["n"], st_["bad"]
     rep.floor("C02-R3", "operator compiler calls inside the fold", n, 30)
     rep.check(not bad, "C02-R3", "term:argument-order", "operator compilers are not called with (accumulator, rhs) in that order: %s" % bad[:5],
-              sample={"accumulator": acc, "rhs": rhsv, "calls": n})
-    # accumulator replaced by the result
+              sample={"accumulator": acc, "rhs": sorted(rhs_names), "calls": n})
+    # ---- accumulator replaced by the result: `acc = <the compiled function>.out()` directly, through a local, or from a helper that
+    # compiles, solves and returns the output
+    produced = st_["site_ids"] | st_["helper_calls"]
+    holders = set()
+    for st in find(lbody, "let"):
+        if len(st) > 2 and st[2] is not None and any(id(n_) in produced for n_ in walk(st[2])):
+            holders.update(pat_idents(st[1]))
+
+    def from_out(e, depth=0):
+        for m in find(e, "mcall"):
+            if m[2] == "out" and not m[4]:
+                r = peel(m[1])
+                if path_of(r) in holders or any(id(n_) in produced for n_ in walk(r)):
+                    return True
+        if any(id(c) in st_["out_helpers"] for c in find(e, "call")):
+            return True
+        y = peel(e)
+        while is_node(y) and y[0] == "call" and last_seg(path_of(y[1]) or "") in ("Ok", "Some") and len(y[2]) == 1:
+            y = peel(y[2][0])
+        p = path_of(y)
+        if p and p != acc and p not in params and depth < 3:
+            return any(from_out(i, depth + 1) for i in inits_of(lbody, p))
+        return False
     assigns = [a for a in find(lbody, "assign") if path_of(a[1]) == acc]
-    last = lbody[-1] if lbody else None
-    ok = False
-    for a in assigns:
-        src = path_of(a[2])
-        if src:
-            # src must come from `<new_fxn>.out()`
-            for st in lbody:
-                if st[0] == "let" and is_node(st[1]) and st[1][0] == "pident" and st[1][1] == src and st[2] is not None and any(m[2] == "out" for m in find(st[2], "mcall")):
-                    ok = True
-    rep.check(ok, "C02-R3", "term:accumulator-updated", "the accumulator is not replaced by the operator's output each iteration")
+    updated = any(from_out(a[2]) for a in assigns)
+    if fold_call is not None and lbody:
+        # closure form: the next accumulator is the closure's value (tail expression)
+        tail = lbody[-1]
+        updated = tail[0] == "expr" and not (len(tail) > 2 and tail[2]) and from_out(tail[1])
+    rep.check(updated, "C02-R3", "term:accumulator-updated", "the accumulator is not replaced by the operator's output each iteration")
